@@ -64,6 +64,11 @@ TB == <<
   << "local", "z", "=", "if", "x", "then", "@", "elseif", "true", "then", "@", "else", "@" >>,
   << "local", "w", "=", "if", "false", "then", "@", "elseif", "x", "then", "@", "else", "@" >>,
   << "local", "function", "hh", "(", "qa", ":", "number", ",", "qb", ":", "string", ")", ":", "(", "number", ",", "string", ")", "return", "qa", ",", "qb", ",", "@", "end" >>,
+  \* tokens that span several lines: strings continued with backslash + line feed (quoted and interpolated, before the first
+  \* value and after it), long strings -- markers behind them on the same line and on the next statement
+  << "local", "s2", "=", "`p\\\nq\\\nr{", "x", "}t{", "@", "}u\\\nv`", ",", "@" >>,
+  << "local", "s3", "=", "`only\\\ntext`", ",", "@" >>,
+  << "m", "(", "[[\nx\ny]]", ",", "@", ",", "'a\\\nb'", ",", "@", ")" >>,
   << "return", "y", ",", "s", ",", "h", "(", "@", ")" >> >>
 Templates == << TA, TB >>
 
@@ -89,6 +94,8 @@ Starts(stmts, i) == IF i > Len(stmts) THEN <<>> ELSE <<TRUE>> \o [k \in 1..(Len(
 \* render: gap before token i is "\n" at statement starts (nothing before the first token), " " otherwise, unless
 \* `choice` overrides gap i with a kind; `tight`: no spaces at all between tokens that may touch (not modelled: always " ")
 \* a marker is the string 'L<line>s<slot>': <line> = the line it is rendered on, <slot> = index of the token (unique per program)
+RECURSIVE TokNl(_, _)
+TokNl(t, k) == IF k > Len(t) THEN 0 ELSE (IF SubSeq(t, k, k) = "\n" THEN 1 ELSE 0) + TokNl(t, k + 1)
 RECURSIVE Render(_, _, _, _, _, _)
 Render(toks, starts, choice, i, line, acc) ==
   IF i > Len(toks) THEN acc \o "\n"
@@ -99,7 +106,8 @@ Render(toks, starts, choice, i, line, acc) ==
        LET nl == IF k = 0 THEN baseNl ELSE baseNl + GapNl[k] IN
        LET ln == line + nl IN
        LET tok == IF toks[i] = "@" THEN "'L" \o IntStr(ln) \o "s" \o IntStr(i) \o "'" ELSE toks[i] IN
-       Render(toks, starts, choice, i + 1, ln, acc \o gap \o tok)
+       \* a token may span several lines (continued strings, long strings): the next token starts after its line feeds
+       Render(toks, starts, choice, i + 1, ln + TokNl(toks[i], 1), acc \o gap \o tok)
 \* the statement of the template that contains token i, named by its first three tokens (triage of recorded findings)
 RECURSIVE StmtOfTok(_, _, _)
 StmtOfTok(stmts, k, i) == IF k > Len(stmts) THEN 0 ELSE IF i <= Len(stmts[k]) THEN k ELSE StmtOfTok(stmts, k + 1, i - Len(stmts[k]))
